@@ -35,6 +35,9 @@ func checkC04(c *Ctx) {
 	c.MinCount("R4.3", 2)
 	c.MinCount("R4.4", 2)
 	c.MinCount("R4.6", 12)
+	if pf := newParserFacts(c); pf.err == nil { // "the configured defaults are the initial state": Defaults.* come from exactly the defaults.* fields
+		ruleFieldCorrespondenceFor(c, pf, tomlLeaves(c), "R4.8b", func(dest string) bool { return strings.HasPrefix(dest, "Defaults.") })
+	}
 	ruleDispatch(c, dv, "R4.9", true, false) // an action key press that never reaches the key handler changes nothing
 	c.MinCount("R4.7", 4)
 	c.MinCount("R4.8", 5)
@@ -59,7 +62,11 @@ func ruleNoteArithmetic(c *Ctx, dv *dev, fnName, tracker string, isKey bool) {
 	if !c.Require(m.err == nil, "R4.1", "device."+fnName, fmt.Sprint(m.err)) {
 		return
 	}
-	type res struct{ ok bool; msg string; pos string }
+	type res struct {
+		ok  bool
+		msg string
+		pos string
+	}
 	agg := map[string]*res{}
 	set := func(rule, msg string, ok bool, pos string) {
 		k := rule
@@ -230,7 +237,7 @@ func storesToField(p *Program, f *types.Var) []writeSite {
 
 type actionSpec struct {
 	fn, field string
-	delta     int64 // +1, -1, 0 = reset
+	delta     int64  // +1, -1, 0 = reset
 	saturate  string // "", "hi15", "lo0", "hiLen"
 }
 
@@ -660,7 +667,10 @@ func rulePressProtocol(c *Ctx, dv *dev) {
 // ruleDefaultsInitial: R4.8 NewDevice initialises the parameters from Defaults.
 func ruleDefaultsInitial(c *Ctx, dv *dev) {
 	fn := dv.fn["NewDevice"]
-	want := map[string]struct{ src string; minus int64 }{
+	want := map[string]struct {
+		src   string
+		minus int64
+	}{
 		"octave": {"Octave", 0}, "semitone": {"Semitone", 0}, "channel": {"Channel", 1}, "mapping": {"Mapping", 0}, "velocity": {"Velocity", 0},
 	}
 	got := map[string]bool{}
